@@ -3,7 +3,7 @@
 From Coq Require Import List Ascii String NArith Arith Bool.
 Import ListNotations.
 From Coq Require Import Permutation.
-From SP Require Import Skel Gen Expected Sha1 PathLex TempNames TempDirModel TempStable.
+From SP Require Import Skel Gen Expected ExpectedCones Sha1 PathLex TempNames TempDirModel TempStable.
 
 (* T1: the constants the model has built in are those of the current source *)
 Theorem C14_code_conforms :
@@ -52,6 +52,15 @@ Proof. exact TempStable.preimage_injective_single_input. Qed.
 Theorem C14_preimage_refuted : iins idA <> iins idB /\ task_tempdir idA = task_tempdir idB.
 Proof. exact TempDirModel.C14_preimage_refuted. Qed.
 
+(* T1, call cones: every function of scipipe that the functions this property's models stand for can reach (calls and
+   function values, interface calls resolved to every implementation) is one the models were compared with -- a helper that
+   is new to the cone, or a new call of an old one, changes a list (regenerated from /repo on every run; ExpectedCones.v
+   holds the accepted ones) *)
+Theorem C14_cone_conforms :
+  strs_eqb cone_Task_TempDir exp_cone_Task_TempDir
+  && strs_eqb cone_NewTask exp_cone_NewTask = true.
+Proof. vm_compute. reflexivity. Qed.
+
 Print Assumptions C14_code_conforms.
 Print Assumptions C14_valid_segment.
 Print Assumptions C14_reduction.
@@ -59,3 +68,4 @@ Print Assumptions C14_stable.
 Print Assumptions C14_preimage_injective_param.
 Print Assumptions C14_preimage_injective_input.
 Print Assumptions C14_preimage_refuted.
+Print Assumptions C14_cone_conforms.
